@@ -182,6 +182,7 @@ func prelude() {
 	vals = append(vals, named{"typednil-*WStack", (*WStack)(nil)}, named{"typednil-*XStack", (*XStack)(nil)},
 		named{"typednil-*WCond", (*WCond)(nil)}, named{"typednil-*XCond", (*XCond)(nil)},
 		named{"zero-WStack", WStack{}}, named{"zero-XStack", XStack{}}, named{"zero-ACond", ACond{}}, named{"zero-WCond", WCond{}}, named{"zero-XCond", XCond{}})
+	vals = append(shadowTypes(), vals...) // the look-alikes first: nothing genuine has been seen under those names yet
 	for _, nv := range vals {
 		func() {
 			defer func() { _ = recover() }()
@@ -189,6 +190,26 @@ func prelude() {
 			_, _ = stackage.ConvertCondition(nv.v)
 		}()
 	}
+}
+
+// shadowTypes: values of function-local types that carry the SAME printed name as the harness's alias types ("main.AStack" ...)
+// but are no Stacks / Conditions at all.  Go types are identified by identity, not by name: whatever the package remembers about
+// "main.AStack" after seeing these must not concern the real alias types.
+func shadowTypes() []named {
+	out := []named{}
+	func() {
+		type AStack struct{ X int }
+		type WStack struct{ X int }
+		type XStack struct{ X int }
+		type ACond struct{ X string }
+		type WCond struct{ X string }
+		type XCond struct{ X string }
+		a, w, x, ac, wc, xc := AStack{1}, WStack{1}, XStack{1}, ACond{"k"}, WCond{"k"}, XCond{"k"}
+		out = append(out, named{"shadow-AStack", a}, named{"shadow-*AStack", &a}, named{"shadow-WStack", w}, named{"shadow-*WStack", &w},
+			named{"shadow-XStack", x}, named{"shadow-*XStack", &x}, named{"shadow-ACond", ac}, named{"shadow-*ACond", &ac},
+			named{"shadow-WCond", wc}, named{"shadow-*WCond", &wc}, named{"shadow-XCond", xc}, named{"shadow-*XCond", &xc})
+	}()
+	return out
 }
 
 var commands = map[string]func([]string){}
